@@ -26,7 +26,7 @@ m = {
  ],
  "checks": [],
  "not_applicable": na,
- "notes": "Static analysis only: every check type-checks /repo's current working tree and decides from syntax, types and SSA; nothing in /repo is executed. Exit 0 = all obligations discharged (known findings aside), 1 = VIOLATION (violated or undecided obligation), 2 = checker could not do its job. Known findings: /verif/known_findings.jsonl. Seeded variants (checking the checker, thorough tier): /verif/variants/<id>/*.json; independently written breaking changes: /verif/seeded/<id>/ (60 in three rounds; all but the one that became benign after a repair fire under the rules of their own property); independently written behaviour-preserving refactorings: /verif/benign/<id>/ (241; the thorough tier requires silence on all but the 21 stated in benign/KNOWN_LIMITS.json, see DESIGN.md 7.3)."
+ "notes": "Static analysis only: every check type-checks /repo's current working tree and decides from syntax, types and SSA; nothing in /repo is executed. Exit 0 = all obligations discharged (known findings aside), 1 = VIOLATION (violated or undecided obligation), 2 = checker could not do its job. Known findings: /verif/known_findings.jsonl. Seeded variants (checking the checker, thorough tier): /verif/variants/<id>/*.json; independently written breaking changes: /verif/seeded/<id>/ (80 in four rounds; all but the one that became benign after a repair fire under the rules of their own property); independently written behaviour-preserving refactorings: /verif/benign/<id>/ (241; the thorough tier requires silence on all but the 21 stated in benign/KNOWN_LIMITS.json, see DESIGN.md 7.3)."
 }
 for c in checks:
     pid = c["property_id"]
